@@ -12,5 +12,8 @@ case "$KIND" in
   plain)
     /verif/lib/gen_overlay.py "$WORK/overlay.json" >&2
     (cd /repo && go build -overlay "$WORK/overlay.json" -o "$WORK/bin/verifh" ./internal/verif/cmd/verifh) >&2
+    if [ "$ID" = C12 ] || [ "${VERIF_BUILD_CUE:-}" = 1 ]; then
+      (cd /repo && go build -o "$WORK/bin/cue" ./cmd/cue) >&2
+    fi
     echo "$WORK/bin/verifh";;
 esac
